@@ -430,6 +430,10 @@ bool vm_ffi_call(const NvmModule *module, uint32_t import_idx,
 bool vm_ffi_cop_start(VmState *vm, const NvmModule *module) {
     if (vm->cop_pid > 0) return true;  /* Already running */
 
+    /* A co-process that has closed its end of the pipe (or died) must surface as
+     * EPIPE from write(), which the callers already handle, not kill the VM. */
+    signal(SIGPIPE, SIG_IGN);
+
     /* Serialize the module to send to co-process */
     uint32_t blob_size = 0;
     uint8_t *blob = nvm_serialize(module, &blob_size);
@@ -460,6 +464,7 @@ bool vm_ffi_cop_start(VmState *vm, const NvmModule *module) {
         dup2(pipe_from_child[1], STDOUT_FILENO);
         close(pipe_to_child[0]);
         close(pipe_from_child[1]);
+        signal(SIGPIPE, SIG_DFL);  /* ignored dispositions survive exec */
 
         execlp("nano_cop", "nano_cop", (char *)NULL);
         execl("bin/nano_cop", "nano_cop", (char *)NULL);
